@@ -9,7 +9,7 @@ from typing import Any, Optional, cast
 
 from nextline import events, spawned
 from nextline.plugin.spec import Context, hookimpl
-from nextline.spawned import Command, QueueIn, QueueOut, RunResult
+from nextline.spawned import Command, PdbCommand, QueueIn, QueueOut, RunResult
 from nextline.utils import ExitedProcess, RunningProcess, Timer, run_in_process
 
 
@@ -23,6 +23,7 @@ class RunSession:
         queue_in = cast(QueueIn, mp_context.Queue())
         queue_out = cast(QueueOut, mp_context.Queue())
         context.send_command = SendCommand(queue_in)
+        context.open_prompts.clear()
         async with relay_events(context, queue_out):
             context.running_process = await run_in_process(
                 func=partial(spawned.main, context.run_arg),
@@ -126,6 +127,14 @@ class CommandSender:
     @hookimpl
     async def send_command(self, context: Context, command: Command) -> None:
         assert context.send_command
+        if isinstance(command, PdbCommand):
+            if (command.trace_no, command.prompt_no) not in context.open_prompts:
+                # A command for a prompt that has been answered or has not been
+                # issued yet would otherwise wait in the queue of the trace and
+                # be executed if a prompt with that number opens later.
+                logger = getLogger(__name__)
+                logger.warning(f'No open prompt for the command: {command!r}')
+                return
         context.send_command(command)
 
 
